@@ -20,7 +20,7 @@ Python values with the harness (C01, C02, C03, C05, C10, C19).  Python side: har
   O <cls> <sig> <n> f1 … fn     object of user class number <cls> with `dbusOrder`; f1…fn are the attribute
                                 values in dbusOrder order; <sig> is the strhex of its `dbusSignature`
                                 attribute or "~" if it has none
-  X <cls>                       object of unsupported class number <cls> (valcodec.py: 0 bytes, 1 object, …)
+  X <cls>                       object of unsupported class number <cls> (valcodec.py: 0 bytes, 1 ellipsis, …)
 
 `parseVal : List String → Option (PyVal × List String)` consumes one value from a token list;
 `printVal : PyVal → String` prints the same syntax (`parseVal (words (printVal v)) = some (v, [])`).
